@@ -9,7 +9,7 @@ func init() {
 	register(&propDef{
 		id: "C09", title: "Stopping an actor stops its whole subtree, children first",
 		technique: "CFG ordering through the fail-fast chains of doStop, fan-out/join rule on freeChildren (every errgroup.Go joined by Wait before success), lockset on the actor tree, paired index-update rule, who-may-call on node removal",
-		explanation: "Decides: (0) a local Shutdown returns success only after taking the stop lock (it waits for a stop in flight instead of returning early); (1) in doStop watchees are released, then children freed, then PostStop runs, then watchers are notified; PostStop is reached only if freeing the children succeeded; (2) freeChildren starts one stop task per element of tree.children(pid), each task shuts the child down when it is running or suspended, and every path to a successful return joins all tasks with Wait first (children complete before the parent's PostStop); a join error is returned; (3) every read/write of the tree indexes (pids, names, rootNode) and of every node's relation maps happens under tree.mu (write lock for mutations); *Locked helpers are only called with the lock held; (4) index pairing: every insertion into pids is paired with an insertion into names and one counter increment in the same block, every removal from pids with the name removal and one decrement; removal proceeds children before parents (post-order); (5) nodes are deleted only from the listed sites (death watch on Terminated, stop directive after a successful Shutdown, system shutdown, spawn rollback). Added after seed C09b: in restartChild, after the backoff sleep the child is un-watched / restarted only over the edge on which the supervising parent was found still running (a guard evaluated before the sleep does not count).",
+		explanation: "Decides: (0) a local Shutdown returns success only after taking the stop lock (it waits for a stop in flight instead of returning early); (1) in doStop watchees are released, then children freed, then PostStop runs, then watchers are notified; PostStop is reached only if freeing the children succeeded; (2) freeChildren starts one stop task per element of tree.children(pid), each task shuts the child down when it is running or suspended, and every path to a successful return joins all tasks with Wait first (children complete before the parent's PostStop); a join error is returned; (3) every read/write of the tree indexes (pids, names, rootNode) and of every node's relation maps happens under tree.mu (write lock for mutations); *Locked helpers are only called with the lock held; (4) index pairing: every insertion into pids is paired with an insertion into names and one counter increment in the same block, every removal from pids with the name removal and one decrement; removal proceeds children before parents (post-order); (5) nodes are deleted only from the listed sites (death watch on Terminated, stop directive after a successful Shutdown, system shutdown, spawn rollback). Added after seed C09b: in restartChild, after the backoff sleep the child is un-watched / restarted only over the edge on which the supervising parent was found still running (a guard evaluated before the sleep does not count). Corrected with F27: a stop task skips Shutdown only when the child is neither running, suspended nor stopping (Shutdown of a stopping child blocks until the stop in flight has finished).",
 		assumptions: []string{"concurrent overlapping stops/spawns of the same subtree", "'no actor of the subtree resolvable when Stop returns' depends on the asynchronous death watch removing nodes"},
 		minObl:     47,
 		run:        runC09,
@@ -159,7 +159,7 @@ func runC09(c *Ctx) {
 						if !b.Live || lf.Cond(b) == nil {
 							continue
 						}
-						nR, nS := false, false
+						nR, nS, nSt := false, false, false
 						for _, fact := range lf.EdgeFacts(b, 1) {
 							if cl, ok := fact.E.(*ast.CallExpr); ok && !fact.Val {
 								if cal := callee(info, cl); cal != nil && objOf(info, recvExpr(cl)) == loopVar {
@@ -169,10 +169,15 @@ func runC09(c *Ctx) {
 									if cal.Name() == "IsSuspended" {
 										nS = true
 									}
+									if cal.Name() == "IsStopping" {
+										nSt = true
+									}
 								}
 							}
 						}
-						if nR && nS {
+						// F27: a child whose own stop is in flight is neither running nor suspended, yet not down: the
+						// skip must also have established that it is not stopping
+						if nR && nS && nSt {
 							dead[Edge{b, 1}] = true
 						}
 					}
@@ -182,7 +187,7 @@ func runC09(c *Ctx) {
 			}
 		}
 		c.Check(goCalls == 1 && !early, "one-task-per-child", "one stop task is started for every child returned by tree.children(pid)", c.P.Pos(rng.Pos()), "loop body changed")
-		c.Check(shut && guarded, "task-stops-live-child", "each task shuts its child down unless the child is neither running nor suspended", c.P.Pos(rng.Pos()), "the task can finish without stopping a live child")
+		c.Check(shut && guarded, "task-stops-live-child", "each task shuts its child down (Shutdown blocks until a stop in flight has finished) unless the child is neither running, suspended nor stopping", c.P.Pos(rng.Pos()), "the task can finish without stopping, or waiting for, a child that is not down yet")
 		// join before success
 		wait := func(n ast.Node) bool {
 			call, ok := n.(*ast.CallExpr)
